@@ -43,6 +43,13 @@ PodWF(j)  == /\ \A i \in 1..Len(j.cs) : ContWF(j.cs[i])
              /\ \A n \in DOMAIN j.ann : ContWF(j.ann[n])
              /\ j.prio >= NoPrio
 
+\* explanations print only the entries that are present
+ShowRL(L)   == [k \in {x \in Res : L[x] # NoVal} |-> L[k]]
+ShowCont(c) == [n |-> c.n, req |-> ShowRL(c.req), lim |-> ShowRL(c.lim)]
+ShowPod(p)  == [cs  |-> [i \in DOMAIN p.cs |-> ShowCont(p.cs[i])], ics |-> [i \in DOMAIN p.ics |-> ShowCont(p.ics[i])],
+                oh  |-> ShowRL(p.oh),
+                ann |-> [n \in DOMAIN p.ann |-> [req |-> ShowRL(p.ann[n].req), lim |-> ShowRL(p.ann[n].lim)]]]
+
 TVerdict ==
     /\ IsEvent("verdict") /\ cas.kind = "admit" /\ UNCHANGED vars
     /\ LET old == Pod(cas.old)
@@ -66,7 +73,7 @@ TMutated ==
                   [tier |-> ClassWithDefault(seen),
                    translated_form |-> (ClassWithDefault(seen) \in Tiers /\ TranslateOK(seen, out, ClassWithDefault(seen))),
                    untouched |-> SameSpec(seen, out), summary_matches |-> AnnotOK(out), second_pass_same |-> PodEq(out2, out),
-                   if_translated |-> MutateImpl(seen, TRUE), if_not |-> MutateImpl(seen, FALSE)])
+                   if_translated |-> ShowPod(MutateImpl(seen, TRUE)), if_not |-> ShowPod(MutateImpl(seen, FALSE))])
 
 TraceInit == \E i \in Starts : TraceStart(i) /\ cas = Trace[i]
 TraceNext == TVerdict \/ TMutated \/ (SegDone /\ UNCHANGED vars)
